@@ -526,9 +526,43 @@ def oracle_adapt(op, a):
     return {"value": a["value"], "target": t, "factory": a.get("factory", "dict"), "desc": a["desc"], "_uni": a.get("_uni")}
 
 
+_ROUTE_OF_MSG = (("decode(encode(obj)) raised", "dict"), ("dict round trip changed", "dict"), ("JSON text route raised", "json"),
+                 ("JSON text round trip changed", "json"))
+
+
 def covered(a, msg):
-    r = D.regions(uni_of(a), a["value"], a.get("factory", "dict"))
-    return sorted(r)[0] if r else None
+    """a failing input belongs to a listed finding when (1) the value holds the shape the finding describes
+    (D.regions, from the class descriptions and the value only), (2) the failure is on the decoding side (both
+    findings are: the encoded form is faithful and JSON-native there), and (3) the outcome observed on the real code
+    is one the model of the unchanged code predicts for this very input, and that prediction is itself not the
+    identity (replay of the model through the driver op dict.roundtrip). A failure of another kind on an input
+    of the region (encoder trouble, another exception, a result the unchanged code can not give) is reported."""
+    u = uni_of(a)
+    r = D.regions(u, a["value"], a.get("factory", "dict"))
+    if not r:
+        return None
+    route = next((rt for pre, rt in _ROUTE_OF_MSG if msg.startswith(pre)), None)
+    if route is None:
+        return None
+    args = {"ctx": D.export_ctx(u), "value": a["value"], "target": a["target"], "factory": a.get("factory", "dict"), "config": {},
+            "ignore_default_attributes": False, "route": route, "desc": a.get("desc"), "_uni": a.get("_uni")}
+    from framework import Driver
+
+    try:
+        mo = Driver().run([{"op": "dict.roundtrip", "args": args}])[0]
+    except Exception:  # noqa: BLE001  (no driver: nothing can be attributed to a finding)
+        return None
+    io = impl_rt(args)
+    if unsupported(mo) or not isinstance(mo, dict):
+        return None
+    if "ok" in mo:
+        if mo["ok"] == [a["value"]]:
+            return None  # the unchanged code round-trips this input
+        if "ok" not in io or io["ok"] not in mo["ok"]:
+            return None
+    elif mo != io:
+        return None
+    return sorted(r)[0]
 
 
 # ------------------------------------------------------------------ known findings (replayed on the real code)
